@@ -153,6 +153,13 @@ def tasks(tier):
         out.append((f"pipeline[{','.join(n for n, _ in chunk)}]", make_task(chunk, tier, seed)))
     from .C01_appliers import applier_tasks
     out += applier_tasks(tier)
+    # "batched or not" is part of the quantifier: the bin-wise skeletons are also run with batch size 2 (shared with C10)
+    from . import C10_batching as B
+
+    def batched(T):
+        for nm in ("2c-different-nbins-staterror", "all-seven-types"):
+            B.run_one(T, nm, dict(K.CURATED)[nm], 2)
+    out.append(("batched-variant", batched))
     return out
 
 
